@@ -41,8 +41,8 @@ WHAT IS ONLY PARTIAL / NOT PROVED (source of truth for MANIFEST "partial"):
   * closed form of the array contents after the initialisation code (store list / all-equal loop):
     the loop is an instance of `loop_skeleton`, the closed form is not proved;
   * foreach/enumerate are `buildLoop 0 len 1` in the model (so `loop_skeleton` applies) — not packaged;
-  * host-side findings F29 (handle objects cache their first value; registers are returned only by the
-    creating subroutine) and F31 (registers of `new_register()` are clobbered by a later subroutine's
+  * host-side findings F41 (handle objects cache their first value; registers are returned only by the
+    creating subroutine) and F42 (registers of `new_register()` are clobbered by a later subroutine's
     scratch registers) are outside the label-level model; they are open known findings of the check.
 -/
 import NetqasmVerif.Lemmas.SdkSem
